@@ -173,7 +173,11 @@ func (l *Linter) lintUnusedVariables(ctx *context.Context) {
 		if o.IsUsed {
 			continue
 		}
-		l.Error(UnusedVariable(o.Meta, k).Match(UNUSED_VARIABLE))
+		// Whether unused/variable is ignored has been decided on the declare statement (the variable is marked as used there).
+		// The ignore comments which are in effect at the end of the subroutine are unrelated to the variable
+		l.mu.Lock()
+		l.Errors = append(l.Errors, UnusedVariable(o.Meta, k).Match(UNUSED_VARIABLE))
+		l.mu.Unlock()
 	}
 }
 
